@@ -156,6 +156,27 @@ pub enum MGenericE<T> {
     Some_(T),
     Two { a: T, b: T },
 }
+// explicit discriminants: the payload of such a variant still counts, the index is the declaration position
+#[derive(postcard_derive::MaxSize)]
+#[repr(u8)]
+pub enum MDiscr {
+    A(u64) = 7,
+    B = 1,
+    C { x: i128, y: u8 } = 3,
+}
+#[derive(postcard_derive::MaxSize)]
+pub enum MDiscrUnit {
+    A = 300,
+    B = 2,
+}
+#[derive(postcard_derive::MaxSize)]
+#[repr(u16)]
+pub enum MDiscrOnly {
+    Only(u32, u32) = 1000,
+}
+bound!(MDiscr, vlen(2) + vbits(128) + 1);
+bound!(MDiscrUnit, vlen(1));
+bound!(MDiscrOnly, vlen(0) + 2 * vbits(32));
 bound!(MUnit, 0);
 bound!(MNewtype, vbits(32));
 bound!(MTuple, 1 + vbits(64) + 1);
